@@ -221,6 +221,7 @@ inline void sink_cb(Env& e, C& c)
   c.unregister();
 }
 
+inline int32_t g_echo_int_fwd(int32_t x) { return x; }
 // C02 run-time entry points: abort <=> address outside this sandbox's memory
 inline void c02_entry_points(Env& e, mon::Rng& rng)
 {
@@ -240,10 +241,17 @@ inline void c02_entry_points(Env& e, mon::Rng& rng)
     Wd::wr<uint32_t>(e.sb, e.off<cpchar>(), 0x5a5a5a5a);
     bool ab3 = mon::aborts([&] { Wd::tptr<char*>(e.sb, e.off<cpchar>())->assign_raw_pointer(e.sb, p); });
     uint32_t cell = Wd::rd<uint32_t>(e.sb, e.off<cpchar>());
-    mon::evals(3);
-    const char* names[3] = { "tainted::assign_raw_pointer", "UNSAFE_accept_pointer", "tainted_volatile::assign_raw_pointer" };
-    bool abs[3] = { ab1, ab2, ab3 };
-    for (int k = 0; k < 3; k++) {
+    // the same entry points with a function-pointer typed argument
+    fnp fp = reinterpret_cast<fnp>(a);
+    tainted<fnp, S> tf = nullptr;
+    bool ab4 = mon::aborts([&] { tf.assign_raw_pointer(e.sb, fp); });
+    bool ab5 = mon::aborts([&] { auto r = e.sb.UNSAFE_accept_pointer(fp); (void)r; });
+    bool ab6 = mon::aborts([&] { Wd::tptr<fnp>(e.sb, e.off<fnp>())->assign_raw_pointer(e.sb, fp); });
+    mon::evals(6);
+    const char* names[6] = { "tainted::assign_raw_pointer", "UNSAFE_accept_pointer", "tainted_volatile::assign_raw_pointer", "tainted::assign_raw_pointer(function-pointer)",
+                             "UNSAFE_accept_pointer(function-pointer)", "tainted_volatile::assign_raw_pointer(function-pointer)" };
+    bool abs[6] = { ab1, ab2, ab3, ab4, ab5, ab6 };
+    for (int k = 0; k < 6; k++) {
       cur_desc = names[k];
       if (inside && abs[k]) violation("entry-point-rejected-address-inside-sandbox", mon::fmt("%s(%s, base%+lld)", names[k], where, (long long)(a - base)));
       else if (!inside && !abs[k]) violation("entry-point-accepted-address-outside-sandbox", mon::fmt("%s accepted %p (%s), sandbox memory is %p..%p", names[k], (void*)a, where, (void*)base, (void*)(base + size - 1)));
@@ -265,6 +273,7 @@ inline void c02_entry_points(Env& e, mon::Rng& rng)
   int s;
   std::unique_ptr<int> h(new int);
   one(reinterpret_cast<uintptr_t>(&g), "global"); one(reinterpret_cast<uintptr_t>(&s), "stack"); one(reinterpret_cast<uintptr_t>(h.get()), "heap");
+  one(reinterpret_cast<uintptr_t>(&plain_fn), "application-function"); one(reinterpret_cast<uintptr_t>(&g_echo_int_fwd), "guest-function-host-address");
   // addresses congruent to an inside address modulo 2^32 (narrowed representation aliases)
   for (int k = 1; k <= 4; k++)
     for (uint64_t off : { uint64_t(0), uint64_t(16), uint64_t(size - 1) }) { one(base + off + (static_cast<uintptr_t>(k) << 32), "inside-plus-k*4GiB"); one(base + off - (static_cast<uintptr_t>(k) << 32), "inside-minus-k*4GiB"); }
